@@ -105,7 +105,7 @@ func Main(c *hc.Ctx, prop string) error {
 			}
 		}
 	}
-	return report(c, prop, outs)
+	return report(c, prop, outs, expectBg)
 }
 
 func scheduleWithoutHang(s []string) []string { return s }
